@@ -13,6 +13,7 @@ import Proofs.DdsSamples
 import Proofs.DdsQuote
 import Proofs.DdsPrintable
 import Proofs.DdsFuel
+import Proofs.DdsExact
 namespace Pydap.C07
 open Pydap Pydap.Dds
 
@@ -66,6 +67,13 @@ theorem C07_fixpoint_refuted : ¬ (∀ d : Dataset, printDs (normDs d) = printDs
     extents (sequence members are columns).  No other hypothesis: names, types, extents arbitrary. -/
 theorem C07_fixpoint_partial (d : Dataset) (h : ColsL d.kids 0) : printDs (normDs d) = printDs d :=
   printDs_norm d h
+
+/-- The guard is EXACT: for a well-formed dataset that prints, printing the parsed dataset reproduces the text if and
+    only if sequence members are columns (`ColsL`) — the failing class of the open finding
+    `C07.sequence_array_member.fixpoint` is precisely the complement. -/
+theorem C07_fixpoint_exact (d : Dataset) (s : Text) (hwf : WFds d) (hp : printDs d = .ok s) :
+    printDs (normDs d) = .ok s ↔ ColsL d.kids 0 :=
+  fixpoint_iff d s hwf hp
 
 /-- print → parse → print reproduces the text exactly (under the same guard). -/
 theorem C07_print_parse_print_partial (d : Dataset) (s : Text) (hwf : WFds d) (hc : ColsL d.kids 0)
